@@ -733,7 +733,20 @@ pub fn gen_c13(rng: &mut Rng) -> Case {
   if kind == 1 || kind == 3 || kind == 12 {
     c.tree.insert("sub".into(), Node::Dir);
   }
-  let pos = rng.below(c.files.len() as u64 + 1) as usize;
+  let mut pos = rng.below(c.files.len() as u64 + 1) as usize;
+  let mut path = path;
+  let mut kind_note = "";
+  // the escaping entry may repeat, position by position, the tail of the ordinary entry listed just before it
+  // (`sub/data.bin` then `../data.bin`): whatever a screen remembers from one entry must not excuse the next
+  if rng.chance(1, 5) {
+    if let Some(j) = (0..c.files.len()).find(|j| c.files[*j].path.len() >= 2) {
+      let prev = c.files[j].path.clone();
+      path = vec!["..".to_string()].into_iter().chain(prev[1..].iter().cloned()).collect();
+      pos = j + 1;
+      target = root_rel[..root_rel.len() - 1].iter().map(|s| s.to_string()).chain(prev[1..].iter().cloned()).collect();
+      kind_note = "-echoing-the-entry-before-it";
+    }
+  }
   c.files.insert(pos, TFile { path, len: secret.len() as u64, md5: if rng.chance(1, 3) { Some(md5::compute(&secret).0.to_vec()) } else { None } });
   c.outside.push((target.join("/"), secret.clone()));
   // pieces over listed order with the secret spliced in - or left out, as if the escaping entry contributed nothing
@@ -763,7 +776,7 @@ pub fn gen_c13(rng: &mut Rng) -> Case {
     let odd = if kind == 14 { vec!["docs".to_string(), String::new()] } else { vec![String::new()] };
     c.files.insert(0, TFile { path: odd, len: 0, md5: None });
   }
-  c.label = format!("escape-kind-{kind}-at-{pos}{}{}", if splice { "" } else { "-pieces-without-it" }, if outside == "outside" { "" } else { "-into-namesake-sibling" });
+  c.label = format!("escape-kind-{kind}-at-{pos}{}{}{kind_note}", if splice { "" } else { "-pieces-without-it" }, if outside == "outside" { "" } else { "-into-namesake-sibling" });
   if kind == 16 {
     let at = if kind == 19 { pos + 1 } else { pos };
     c.label += &format!("+alt={at}={}", ups.iter().cloned().chain([outside.to_string(), "secret".to_string()]).collect::<Vec<_>>().join("|"));
@@ -840,6 +853,10 @@ pub fn run_c03(ctx: &Ctx) -> Report {
       let mut rng = Rng::new(ctx.seed).fork(0xC03);
       let mut v = corpus_c03();
       v.extend((0..ctx.n(1500, 60_000)).map(|_| gen_c03(&mut rng)));
+      // entries that cannot lie inside the content root (the business of C13 in detail): the recomputation cannot
+      // succeed on them either, wherever the bytes they name may be found
+      let mut rng13 = Rng::new(ctx.seed).fork(0xC03D);
+      v.extend((0..ctx.n(80, 2000)).map(|_| gen_c13(&mut rng13)));
       v
     }
   };
